@@ -122,7 +122,9 @@ def run(res, b, tier, seed):
     for c, target, what in fails:
         if c.meta["src"] in reserved_progs and res.known_finding("reserved-identifiers-not-rejected", what):
             continue
-        if c.meta.get("multipath") and " times (lines" in what and res.known_finding("multipath-import-runs-twice", what):
+        if "spellings differ only in case" in what and res.known_finding("batch-names-case-insensitive", what):
+            continue
+        if c.meta.get("multipath") and " times (lines" in what and "spellings differ" not in what and res.known_finding("multipath-import-runs-twice", what):
             continue
         real.append((c, target, what))
     seen = set()
